@@ -7,6 +7,7 @@ import (
 	"context"
 	"errors"
 	"fmt"
+	"io"
 	"math/rand"
 	"net"
 	"runtime"
@@ -60,18 +61,41 @@ type c02Conn struct {
 	readFailAt   int64 // -1 = never; the Read that would pass this offset fails
 	writeFailAt  int64 // -1 = never
 	timeoutEvery int64 // every k-th Read returns a temporary timeout (0 = never)
+	dataWithErr  bool  // scripted timeouts / read failures are returned together with the bytes of that Read (n>0, err)
+	finAt        int64 // -1 = never; the Read that reaches this offset returns its bytes together with io.EOF
+	finGate      chan struct{} // ... once this is closed (the peer of this conn "closes" then)
+	finFired     atomic.Bool
+	dataErrReads atomic.Int64 // Reads answered with (n>0, err)
 	timeouts     atomic.Int64
 	faultFired   atomic.Bool
 	maxReadSeen  atomic.Int64
 }
 
-func c02Wrap(c net.Conn) *c02Conn { return &c02Conn{Conn: c, readFailAt: -1, writeFailAt: -1} }
+func c02Wrap(c net.Conn) *c02Conn { return &c02Conn{Conn: c, readFailAt: -1, writeFailAt: -1, finAt: -1} }
 
 func (c *c02Conn) Read(p []byte) (int, error) {
 	k := c.reads.Add(1)
+	timeoutNow := false
 	if c.timeoutEvery > 0 && k%c.timeoutEvery == 0 {
 		c.timeouts.Add(1)
-		return 0, c02Timeout{}
+		if !c.dataWithErr {
+			return 0, c02Timeout{}
+		}
+		timeoutNow = true // deliver this Read's bytes together with the timeout
+	}
+	if c.finAt >= 0 && c.finFired.Load() {
+		return 0, io.EOF
+	}
+	if c.finAt == 0 {
+		<-c.finGate
+		c.finFired.Store(true)
+		c.faultFired.Store(true)
+		return 0, io.EOF
+	}
+	if c.finAt > 0 {
+		if rem := c.finAt - c.rd.Load(); int64(len(p)) > rem {
+			p = p[:rem]
+		}
 	}
 	if c.readFailAt >= 0 {
 		rem := c.readFailAt - c.rd.Load()
@@ -93,7 +117,30 @@ func (c *c02Conn) Read(p []byte) (int, error) {
 			c.maxReadSeen.Store(int64(n))
 		}
 	}
-	return n, err
+	if err != nil {
+		return n, err
+	}
+	if n > 0 && c.finAt > 0 && c.rd.Load() >= c.finAt {
+		// the final bytes of this end's stream arrive together with the end of the stream
+		// (legal for an io.Reader; QUIC-style streams do this) - once that end "closes"
+		<-c.finGate
+		c.finFired.Store(true)
+		c.faultFired.Store(true)
+		c.dataErrReads.Add(1)
+		return n, io.EOF
+	}
+	if n > 0 && c.dataWithErr && c.readFailAt >= 0 && c.rd.Load() >= c.readFailAt {
+		c.faultFired.Store(true)
+		c.dataErrReads.Add(1)
+		return n, c02ErrScripted
+	}
+	if timeoutNow {
+		if n > 0 {
+			c.dataErrReads.Add(1)
+		}
+		return n, c02Timeout{}
+	}
+	return n, nil
 }
 
 func (c *c02Conn) Write(p []byte) (int, error) {
@@ -223,6 +270,8 @@ type c02Cfg struct {
 	On        string `json:"script_on"` // rd | wr (client-side trigger for close / bridge-close)
 	At        int64  `json:"script_at"`
 	Closer    string `json:"orderly_closer"`
+	DataErr   bool   `json:"errors_delivered_with_data"`
+	SrcT2     string `json:"src2_transport,omitempty"`
 	Yield     bool   `json:"yield"`
 	Seed      uint64 `json:"pattern_seed"`
 	ChunkSeed int64  `json:"chunk_seed"`
@@ -368,19 +417,41 @@ func c02Gen(r *rand.Rand, id int, thorough bool) c02Cfg {
 	c.On = []string{"rd", "wr"}[r.Intn(2)]
 	c.Closer = []string{"src", "tgt"}[r.Intn(2)]
 	c.Yield = r.Intn(4) == 0
+	c.DataErr = r.Intn(2) == 0
+	c.SrcT2 = tr()
 	switch k := r.Intn(100); {
-	case k < 45:
+	case k < 36:
 		c.Script = "none"
-	case k < 50:
+	case k < 42:
 		c.Script = "timeouts"
-	case k < 75:
+	case k < 50:
+		c.Script = "fin" // End's last bytes arrive together with io.EOF after a complete exchange
+	case k < 58:
+		c.Script = "reattach" // the source end re-attaches on a new connection mid-stream
+	case k < 78:
 		c.Script = "close"
-	case k < 83:
+	case k < 85:
 		c.Script = "err-read"
-	case k < 90:
+	case k < 91:
 		c.Script = "err-write"
 	default:
 		c.Script = "bridge-close"
+	}
+	switch c.Script {
+	case "fin":
+		// the finishing end must have something to send
+		if c.End == "src" && c.S2T == 0 {
+			c.S2T = 1 + r.Intn(5000)
+		}
+		if c.End == "tgt" && c.T2S == 0 {
+			c.T2S = 1 + r.Intn(5000)
+		}
+	case "reattach":
+		if c.T2S < 2 {
+			c.T2S = 2 + r.Intn(5000)
+		}
+		c.At = int64(1 + r.Intn(c.T2S-1)) // hand-over offset in the target->source stream: 1..T2S-1
+		return c
 	}
 	// offset of the event within the relevant stream
 	rel := 0
@@ -480,6 +551,11 @@ type c02End struct {
 	onGot  *c02Trigger
 	onSent *c02Trigger
 	wStart chan struct{}
+	// optional barrier: the writer stops after exactly pauseAt bytes (a chunk boundary),
+	// closes paused and continues when resume is closed
+	pauseAt int
+	paused  chan struct{}
+	resume  chan struct{}
 }
 
 func (e *c02End) writer() {
@@ -487,6 +563,19 @@ func (e *c02End) writer() {
 	close(e.wStart)
 	e.onSent.check(0)
 	off := 0
+	pause := func() {
+		if e.paused != nil && off == e.pauseAt {
+			close(e.paused)
+			<-e.resume
+			e.paused = nil
+		}
+	}
+	defer func() {
+		if e.paused != nil {
+			close(e.paused)
+		}
+	}()
+	pause()
 	for _, n := range e.chunks {
 		k, err := e.cli.Write(e.send[off : off+n])
 		off += k
@@ -496,6 +585,7 @@ func (e *c02End) writer() {
 			return
 		}
 		e.onSent.check(int64(off))
+		pause()
 		if e.yield {
 			runtime.Gosched()
 		}
@@ -691,6 +781,9 @@ func c02Pick(s, t *c02End, name string) *c02End {
 }
 
 func c02RunCase(run *vk.Run, nw *c02Net, cfg c02Cfg) (out c02Outcome) {
+	if cfg.Script == "reattach" {
+		return c02RunReattach(run, nw, cfg)
+	}
 	lc := c02LimitClass(cfg.Limit)
 	ctx, cancel := context.WithCancel(context.Background())
 	defer cancel()
@@ -745,6 +838,7 @@ func c02RunCase(run *vk.Run, nw *c02Net, cfg c02Cfg) (out c02Outcome) {
 	tgtConn := &c02TunnelConn{id: fmt.Sprintf("c02-%d-tgt", cfg.ID), conn: srvT, st: tgtStream}
 
 	// event script
+	caseOver := make(chan struct{})
 	attached := make(chan struct{})
 	var induced atomic.Bool     // the harness is about to close/fail an end or close the bridge
 	var inducedDone atomic.Bool // ... and that action has returned
@@ -764,6 +858,27 @@ func c02RunCase(run *vk.Run, nw *c02Net, cfg c02Cfg) (out c02Outcome) {
 	case "timeouts":
 		srvS.timeoutEvery = 3
 		srvT.timeoutEvery = 5
+		srvS.dataWithErr, srvT.dataWithErr = cfg.DataErr, !cfg.DataErr || cfg.Yield
+	case "fin":
+		e := c02Pick(S, T, cfg.End)
+		e.srv.finAt = int64(len(e.send))
+		e.srv.finGate = make(chan struct{})
+		go func() {
+			// End "closes" only after it has written everything and received everything:
+			// it does not close early, so its peer is entitled to the whole stream
+			select {
+			case <-e.gotAll:
+			case <-caseOver:
+			}
+			select {
+			case <-e.wDone:
+			case <-caseOver:
+			}
+			close(e.srv.finGate)
+		}()
+	}
+	if cfg.Script == "err-read" {
+		c02Pick(S, T, cfg.End).srv.dataWithErr = cfg.DataErr
 	}
 	if trig != nil {
 		e := c02Pick(S, T, cfg.End)
@@ -811,7 +926,6 @@ func c02RunCase(run *vk.Run, nw *c02Net, cfg c02Cfg) (out c02Outcome) {
 		close(attached)
 	}
 
-	caseOver := make(chan struct{})
 	complete := make(chan struct{})
 	go func() {
 		for _, ch := range []chan struct{}{S.gotAll, T.gotAll, S.wDone, T.wDone} {
@@ -964,7 +1078,7 @@ phaseA:
 			poll2.Stop()
 		} else if !selfTerminated {
 			switch cfg.Script {
-			case "close", "err-read", "err-write":
+			case "close", "err-read", "err-write", "fin":
 				initiator = cfg.End
 			}
 		}
@@ -991,6 +1105,27 @@ phaseA:
 				out.watchdog = true
 			}
 			wd3.Stop()
+		}
+		if cfg.Script == "fin" {
+			// End wrote everything, received everything and only then ended its stream (its
+			// last bytes arrived together with io.EOF): the peer is entitled to all of it.
+			// The peer's reader has returned, so its byte count is final.
+			fe := c02Pick(S, T, cfg.End)
+			pe := c02Other(S, T, cfg.End)
+			if fe.srv.finFired.Load() {
+				run.Count("fin_with_data_fired", 1)
+				select {
+				case <-pe.rDone:
+					if pe.bad.Load() == nil && pe.got.Load() < int64(len(pe.expect)) {
+						run.Violation("C02:incomplete|limit="+lc+"|cause=final-bytes-with-eof-dropped", detail(map[string]any{"finishing_end": cfg.End,
+							"lost_tail": int64(len(pe.expect)) - pe.got.Load(),
+							"what":      "an end finished its stream after a complete exchange, its last Read returned (n>0, io.EOF); the peer saw closure without those bytes"}))
+					} else if pe.bad.Load() == nil {
+						out.complete = S.wErr == nil && T.wErr == nil
+					}
+				default:
+				}
+			}
 		}
 		if !bridge.IsClosed() {
 			run.Count("bridge_not_closed_after_start_returned", 1)
@@ -1055,6 +1190,9 @@ phaseA:
 	if faultFired() {
 		run.Count("transport_fault_fired", 1)
 	}
+	if n := srvS.dataErrReads.Load() + srvT.dataErrReads.Load(); n > 0 {
+		run.Count("reads_returning_data_and_error", n)
+	}
 	if srvS.timeouts.Load()+srvT.timeouts.Load() > 0 {
 		run.Count("read_timeouts_injected", srvS.timeouts.Load()+srvT.timeouts.Load())
 	}
@@ -1081,6 +1219,273 @@ phaseA:
 	return out
 }
 
+
+// ---------------------------------------------------------------------------
+// source re-attach case
+// ---------------------------------------------------------------------------
+
+// c02RunReattach: the tunnel runs between source connection S1 and the target; the
+// source has sent its whole stream and the target the first h bytes of its stream, all
+// of which have been received (so no bridge write is in flight), when the source end
+// re-attaches on a new connection S2 (Bridge.SetSourceConnection, what
+// handleExistingBridge does for a source reconnect) while S1 stays open. The target then
+// writes the rest. Every write of the bridge towards the source that starts after
+// SetSourceConnection returned must go to the current source connection: S2 must receive
+// exactly target-stream[h:], S1 exactly target-stream[:h] and nothing more.
+// (Not judged: which connection the source->target loop reads after the hand-over; the
+// old connection is closed by the harness at teardown.)
+func c02RunReattach(run *vk.Run, nw *c02Net, cfg c02Cfg) (out c02Outcome) {
+	lc := c02LimitClass(cfg.Limit)
+	ctx, cancel := context.WithCancel(context.Background())
+	defer cancel()
+	var toClose []io.Closer
+	defer func() {
+		for _, c := range toClose {
+			c.Close()
+		}
+	}()
+	mkPair := func(kind string) (net.Conn, *c02Conn, bool) {
+		cli, srv, err := nw.pair(kind)
+		if err != nil {
+			run.Count("harness_transport_error", 1)
+			out.watchdog = true
+			return nil, nil, false
+		}
+		w := c02Wrap(srv)
+		toClose = append(toClose, cli, w)
+		return cli, w, true
+	}
+	cliS1, srvS1, ok1 := mkPair(cfg.SrcT)
+	if !ok1 {
+		return
+	}
+	cliS2, srvS2, ok2 := mkPair(cfg.SrcT2)
+	if !ok2 {
+		return
+	}
+	cliT, srvT, ok3 := mkPair(cfg.TgtT)
+	if !ok3 {
+		return
+	}
+	srvS1.maxRead, srvT.maxRead = cfg.MaxReadS, cfg.MaxReadT
+	h := int(cfg.At)
+	s2t := vk.Pattern(cfg.Seed, 0, cfg.S2T)
+	t2s := vk.Pattern(cfg.Seed^0xA5A5A5A5DEADBEEF, 0, cfg.T2S)
+	cr := rand.New(rand.NewSource(cfg.ChunkSeed))
+	mk := func(name string, cli net.Conn, srv *c02Conn, send, expect []byte, chunks []int, rbuf int) *c02End {
+		return &c02End{name: name, cli: cli, srv: srv, send: send, expect: expect, chunks: chunks, rbuf: rbuf, yield: cfg.Yield,
+			wDone: make(chan struct{}), rDone: make(chan struct{}), gotAll: make(chan struct{}), wStart: make(chan struct{}), badCh: make(chan struct{})}
+	}
+	S1 := mk("src", cliS1, srvS1, s2t, t2s[:h], c02Chunks(cr, cfg.ChunkS, len(s2t)), cfg.RBufS)
+	S2 := mk("src2", cliS2, srvS2, nil, t2s[h:], nil, cfg.RBufS)
+	tChunks := append(c02Chunks(cr, cfg.ChunkT, h), c02Chunks(cr, cfg.ChunkT, len(t2s)-h)...)
+	T := mk("tgt", cliT, srvT, t2s, s2t, tChunks, cfg.RBufT)
+	T.pauseAt, T.paused, T.resume = h, make(chan struct{}), make(chan struct{})
+	paused := T.paused
+
+	var st1, st2, stT stream.PackageStreamer
+	if cfg.Stream {
+		st1 = stream.NewStreamProcessor(srvS1, srvS1, ctx)
+		st2 = stream.NewStreamProcessor(srvS2, srvS2, ctx)
+		stT = stream.NewStreamProcessor(srvT, srvT, ctx)
+	}
+	bridge := NewBridge(ctx, &BridgeConfig{TunnelID: fmt.Sprintf("c02-%d", cfg.ID), SourceConn: srvS1, SourceStream: st1, BandwidthLimit: cfg.Limit})
+	startDone := make(chan struct{})
+	go func() { bridge.Start(); close(startDone) }()
+	if cfg.Attach == "before" {
+		bridge.SetTargetConnection(&c02TunnelConn{id: "tgt", conn: srvT, st: stT})
+	}
+	began := time.Now()
+	for _, e := range []*c02End{S1, S2, T} {
+		go e.reader()
+	}
+	go S1.writer()
+	go T.writer()
+	if cfg.Attach != "before" {
+		runtime.Gosched()
+		bridge.SetTargetConnection(&c02TunnelConn{id: "tgt", conn: srvT, st: stT})
+	}
+	handedOver := false
+	detail := func(extra map[string]any) map[string]any {
+		m := map[string]any{"case": cfg, "limit_class": lc, "handover_offset": h, "handed_over": handedOver,
+			"tgt_sent": T.sent.Load(), "old_src_got": S1.got.Load(), "new_src_got": S2.got.Load(), "src_sent": S1.sent.Load(), "tgt_got": T.got.Load(),
+			"srv_old_src_written": srvS1.wr.Load(), "srv_new_src_written": srvS2.wr.Load(), "srv_tgt_read": srvT.rd.Load(),
+			"elapsed_ms": time.Since(began).Milliseconds()}
+		for k, v := range extra {
+			m[k] = v
+		}
+		return m
+	}
+	// waitAll waits for chans; returns "" or the reason it stopped early
+	waitAll := func(phase string, chans ...chan struct{}) string {
+		wd := time.NewTimer(c02WatchTransfer)
+		defer wd.Stop()
+		poll := time.NewTicker(time.Second)
+		defer poll.Stop()
+		for _, ch := range chans {
+			for done := false; !done; {
+				select {
+				case <-ch:
+					done = true
+				case <-S1.badCh:
+					return "corrupt"
+				case <-S2.badCh:
+					return "corrupt"
+				case <-T.badCh:
+					return "corrupt"
+				case <-startDone:
+					return "bridge-ended"
+				case <-poll.C:
+					select {
+					case <-T.wDone:
+					default:
+						continue
+					}
+					if phase != "after-handover" || T.wErr != nil {
+						continue
+					}
+					undelivered := func() bool { return S1.got.Load()+S2.got.Load() < int64(len(t2s)) }
+					if parked, sig := c02Parked(bridge, S1, S2, T); parked && undelivered() {
+						run.Violation("C02:stall|limit="+lc+"|script=reattach", detail(map[string]any{"goroutines": sig,
+							"what": "after the source re-attach all target bytes were handed to the tunnel, everything is parked, yet bytes reached neither source connection"}))
+						out.stalled = true
+						return "stalled"
+					}
+				case <-wd.C:
+					run.Count("watchdog", 1)
+					run.Observe("watchdog_last", detail(map[string]any{"phase": "reattach:" + phase}))
+					out.watchdog = true
+					return "watchdog"
+				}
+			}
+		}
+		return ""
+	}
+	verdictCorrupt := func() {
+		if m := S1.bad.Load(); m != nil {
+			if handedOver && m.Kind != "foreign" && m.FirstBad >= int64(h) {
+				run.Violation("C02:reattach|bytes-written-to-replaced-source-conn|limit="+lc, detail(map[string]any{"mismatch": m,
+					"what": "a bridge write that started after SetSourceConnection returned went to the old source connection; the current source end never gets these bytes"}))
+			} else {
+				run.Violation("C02:corrupt|kind="+m.Kind+"|limit="+lc, detail(map[string]any{"direction": "tgt->src(old conn)", "mismatch": m}))
+			}
+		}
+		if m := S2.bad.Load(); m != nil {
+			run.Violation("C02:reattach|new-source-stream-not-the-suffix|kind="+m.Kind+"|limit="+lc, detail(map[string]any{"mismatch": m,
+				"what": "what the re-attached source end receives is not exactly the target's stream from the hand-over offset"}))
+		}
+		if m := T.bad.Load(); m != nil {
+			run.Violation("C02:corrupt|kind="+m.Kind+"|limit="+lc, detail(map[string]any{"direction": "src->tgt", "mismatch": m}))
+		}
+	}
+
+	// phase 1: everything sent so far has arrived; the target's writer is parked at h
+	why := waitAll("before-handover", S1.wDone, paused, S1.gotAll, T.gotAll)
+	if why == "" && (S1.wErr != nil || T.wErr != nil) {
+		why = "bridge-ended"
+	}
+	if why == "" {
+		// phase 2: hand-over
+		bridge.SetSourceConnection(&c02TunnelConn{id: "src2", conn: srvS2, st: st2})
+		handedOver = true
+		run.Count("reattach_done", 1)
+		close(T.resume)
+		why = waitAll("after-handover", T.wDone, S2.gotAll)
+		if why == "" && T.wErr == nil {
+			// S1 must not have received anything beyond h: its reader flags any extra byte as
+			// overrun; give nothing more time than the data needed (S2 has everything)
+			out.complete = S1.bad.Load() == nil && S2.bad.Load() == nil && T.bad.Load() == nil
+			if out.complete {
+				run.Count("reattach_suffix_exact", 1)
+			}
+		}
+	} else {
+		close(T.resume)
+	}
+	switch why {
+	case "corrupt":
+		verdictCorrupt()
+	case "bridge-ended":
+		run.Violation("C02:incomplete|limit="+lc+"|cause=bridge-closed-tunnel", detail(map[string]any{
+			"what": "the bridge ended the tunnel although no end had closed or failed (re-attach case)"}))
+	case "":
+		verdictCorrupt()
+	}
+
+	// teardown: target and OLD source connection are closed by the harness (see above)
+	cliT.Close()
+	cliS1.Close()
+	if why == "" {
+		wd := time.NewTimer(c02WatchClose)
+		poll := time.NewTicker(time.Second)
+	closing:
+		for {
+			select {
+			case <-startDone:
+				run.Count("closure_checks", 1)
+				if srvS2.closes.Load() == 0 {
+					run.Violation("C02:closure|peer-conn-left-open|script=reattach", detail(map[string]any{
+						"what": "bridge finished without closing the current (re-attached) source connection"}))
+				} else {
+					select {
+					case <-S2.rDone:
+						run.Count("closure_observed_by_peer", 1)
+					case <-wd.C:
+						run.Count("harness_reader_stuck", 1)
+						out.watchdog = true
+					}
+				}
+				break closing
+			case <-poll.C:
+				if parked, sig := c02Parked(bridge, S2); parked {
+					run.Violation("C02:closure|bridge-hang|script=reattach", detail(map[string]any{"bridge_goroutines": sig,
+						"what": "target and old source connection closed, yet the bridge stays parked: the re-attached source end never observes closure"}))
+					out.stalled = true
+					break closing
+				}
+			case <-wd.C:
+				run.Count("watchdog", 1)
+				run.Observe("watchdog_last", detail(map[string]any{"phase": "reattach:close"}))
+				out.watchdog = true
+				break closing
+			}
+		}
+		wd.Stop()
+		poll.Stop()
+	}
+	// cleanup
+	cliS2.Close()
+	bridge.Close()
+	for _, c := range []io.Closer{srvS1, srvS2, srvT} {
+		c.Close()
+	}
+	for _, st := range []stream.PackageStreamer{st1, st2, stT} {
+		if st != nil {
+			st.Close()
+		}
+	}
+	cw := time.NewTimer(c02WatchClose)
+	for _, ch := range []chan struct{}{S1.rDone, S2.rDone, T.rDone, S1.wDone, T.wDone, startDone} {
+		select {
+		case <-ch:
+		case <-cw.C:
+			run.Count("harness_cleanup_stuck", 1)
+			out.watchdog = true
+		}
+	}
+	cw.Stop()
+	run.Eval(1)
+	if out.complete {
+		run.Count("complete_transfers", 1)
+	}
+	run.Count("cases_limit_"+lc, 1)
+	run.Count("cases_script_reattach", 1)
+	run.Count("bytes_delivered", S1.got.Load()+S2.got.Load()+T.got.Load())
+	run.Distinct(fmt.Sprintf("%s+%s>%s|stream=%v|limit=%s|attach=%s|script=reattach|%s/%s", cfg.SrcT, cfg.SrcT2, cfg.TgtT, cfg.Stream, lc, cfg.Attach,
+		c02SizeBucket(cfg.S2T), c02SizeBucket(cfg.T2S)))
+	return out
+}
+
 // ---------------------------------------------------------------------------
 // test
 // ---------------------------------------------------------------------------
@@ -1101,6 +1506,15 @@ func c02Directed() []c02Cfg {
 	add(func(c *c02Cfg) { c.Limit = 64 * 1024; c.S2T = 100000; c.T2S = 100000; c.ChunkS = "mid"; c.ChunkT = "big" })
 	add(func(c *c02Cfg) { c.Limit = 1 << 20; c.S2T = 1<<20 + 1; c.T2S = 1500000; c.ChunkS = "big"; c.ChunkT = "big"; c.SrcT = "buf"; c.TgtT = "tcp" })
 	add(func(c *c02Cfg) { c.Limit = 1 << 30; c.S2T = 1500000; c.T2S = 1<<20 + 1; c.ChunkS = "big"; c.ChunkT = "whole"; c.SrcT = "buf"; c.TgtT = "buf" })
+	// final bytes delivered together with io.EOF, in either direction
+	add(func(c *c02Cfg) { c.Script = "fin"; c.End = "src"; c.S2T = 10137; c.T2S = 5000; c.ChunkS = "small"; c.MaxReadS = 512 })
+	add(func(c *c02Cfg) { c.Script = "fin"; c.End = "tgt"; c.S2T = 300; c.T2S = 70000; c.ChunkT = "mid"; c.TgtT = "buf" })
+	// read timeouts delivered together with data
+	add(func(c *c02Cfg) { c.Script = "timeouts"; c.DataErr = true; c.Yield = true; c.S2T = 100000; c.T2S = 100000; c.ChunkS = "small"; c.ChunkT = "mid" })
+	// source re-attach mid-stream, old connection stays open
+	add(func(c *c02Cfg) { c.Script = "reattach"; c.SrcT2 = "pipe"; c.S2T = 4096; c.T2S = 8192; c.At = 4096; c.ChunkT = "small" })
+	add(func(c *c02Cfg) { c.Script = "reattach"; c.SrcT = "tcp"; c.SrcT2 = "tcp"; c.TgtT = "tcp"; c.S2T = 100; c.T2S = 200000; c.At = 70000; c.ChunkT = "mid" })
+	add(func(c *c02Cfg) { c.Script = "reattach"; c.SrcT = "buf"; c.SrcT2 = "buf"; c.TgtT = "buf"; c.Stream = true; c.S2T = 0; c.T2S = 3000; c.At = 1; c.ChunkT = "tiny" })
 	return out
 }
 
@@ -1108,7 +1522,7 @@ func TestVerifC02BytePipe(t *testing.T) {
 	vk.Quiet()
 	run := vk.Start(t, "C02", "bytepipe")
 	defer run.Finish()
-	run.Rule("a real tunnel.Bridge between two harness clients; per case: transports per end {net.Pipe, unbounded in-memory pipe, loopback TCP}, raw conn or real StreamProcessor, bandwidth limit {0, 500..16383 (burst < 32KiB copy buffer), 64KiB/s, 1MiB/s, 1GiB/s}, 0..1.5MiB (thorough 8MiB) per direction simultaneously (sizes of limited cases chosen so a correct transfer needs <= 1.5s), seeded write chunkings (1B..256KiB / whole), server-side short reads, client read buffers 1B..64KiB, target attached before/after Start/after the source started writing, scripts {none, injected read timeouts, client close at a seeded offset, server-side read/write failure at a seeded offset, Bridge.Close at a seeded offset}; distinct = (transports, stream, limit class, attach, script, size buckets) of cases that delivered at least one byte")
+	run.Rule("a real tunnel.Bridge between two harness clients; per case: transports per end {net.Pipe, unbounded in-memory pipe, loopback TCP}, raw conn or real StreamProcessor, bandwidth limit {0, 500..16383 (burst < 32KiB copy buffer), 64KiB/s, 1MiB/s, 1GiB/s}, 0..1.5MiB (thorough 8MiB) per direction simultaneously (sizes of limited cases chosen so a correct transfer needs <= 1.5s), seeded write chunkings (1B..256KiB / whole), server-side short reads, client read buffers 1B..64KiB, target attached before/after Start/after the source started writing, scripts {none, injected read timeouts (bare or together with data), an end finishing after a complete exchange with its last bytes delivered together with io.EOF, source re-attach on a new connection at a seeded hand-over offset with the old connection left open, client close at a seeded offset, server-side read/write failure at a seeded offset (bare or with data), Bridge.Close at a seeded offset}; distinct = (transports, stream, limit class, attach, script, size buckets) of cases that delivered at least one byte")
 
 	ln, err := net.Listen("tcp", "127.0.0.1:0")
 	if err != nil {
@@ -1198,6 +1612,9 @@ func TestVerifC02BytePipe(t *testing.T) {
 	run.Floor("early_close_fired", 5)
 	run.Floor("transport_fault_fired", 3)
 	run.Floor("read_timeouts_injected", 1)
+	run.Floor("reads_returning_data_and_error", 20)
+	run.Floor("fin_with_data_fired", 5)
+	run.Floor("reattach_suffix_exact", 5)
 }
 
 // TestVerifC02EarlyEnd drives the interleaving "one direction ends before the other copy
@@ -1209,7 +1626,7 @@ func TestVerifC02EarlyEnd(t *testing.T) {
 	vk.Quiet()
 	run := vk.Start(t, "C02", "earlyend")
 	defer run.Finish()
-	run.Rule("source end writes 0..200 bytes and closes (client close or server-side read failure) before the target is attached, transports {unbounded in-memory pipe, loopback TCP} for the source and {net.Pipe, in-memory pipe, TCP} for the target, raw conn or StreamProcessor, GOMAXPROCS-many cases in flight; distinct = (transports, stream, how the source ended, bytes>0)")
+	run.Rule("source end writes 0..300 bytes and ends (client close, server-side read failure, or its bytes delivered together with io.EOF in one Read) before the target is attached, transports {unbounded in-memory pipe, loopback TCP} for the source and {net.Pipe, in-memory pipe, TCP} for the target, raw conn or StreamProcessor, GOMAXPROCS-many cases in flight; distinct = (transports, stream, how the source ended, bytes>0)")
 	ln, err := net.Listen("tcp", "127.0.0.1:0")
 	if err != nil {
 		t.Fatalf("c02: listen: %v", err)
@@ -1228,7 +1645,10 @@ func TestVerifC02EarlyEnd(t *testing.T) {
 	cases := make([]ecase, n)
 	for i := range cases {
 		c := ecase{SrcT: "buf", TgtT: []string{"pipe", "buf", "buf", "tcp"}[r.Intn(4)], Stream: r.Intn(2) == 0,
-			Bytes: []int{0, 0, 1, 17, 200}[r.Intn(5)], How: []string{"client-close", "client-close", "read-error"}[r.Intn(3)], Seed: r.Uint64()}
+			Bytes: []int{0, 0, 1, 17, 200}[r.Intn(5)], How: []string{"client-close", "client-close", "read-error", "fin-with-data"}[r.Intn(4)], Seed: r.Uint64()}
+		if c.How == "fin-with-data" && c.Bytes == 0 {
+			c.Bytes = 1 + r.Intn(300)
+		}
 		if r.Intn(8) == 0 {
 			c.SrcT = "tcp"
 		}
@@ -1272,9 +1692,16 @@ func TestVerifC02EarlyEnd(t *testing.T) {
 				if c.Bytes > 0 {
 					cliS.Write(data)
 				}
-				if c.How == "client-close" {
+				switch c.How {
+				case "client-close":
 					cliS.Close()
-				} else {
+				case "fin-with-data":
+					// the source's bytes reach the server together with the end of its stream:
+					// the bridge's Read returns (n>0, io.EOF)
+					srvS.finAt = int64(c.Bytes)
+					srvS.finGate = make(chan struct{})
+					close(srvS.finGate)
+				default:
 					srvS.readFailAt = int64(c.Bytes)
 				}
 				var ss, ts stream.PackageStreamer
@@ -1339,6 +1766,17 @@ func TestVerifC02EarlyEnd(t *testing.T) {
 				}
 				if T.got.Load() == int64(c.Bytes) {
 					run.Count("prefix_was_complete", 1)
+				} else if c.How == "fin-with-data" && finished && T.bad.Load() == nil && srvS.finFired.Load() {
+					select {
+					case <-T.rDone: // the target's stream has ended: its count is final
+						d := det()
+						d["lost_tail"] = int64(c.Bytes) - T.got.Load()
+						run.Violation("C02:incomplete|limit=none|cause=final-bytes-with-eof-dropped", d)
+					default:
+					}
+				}
+				if srvS.finFired.Load() {
+					run.Count("fin_with_data_fired", 1)
 				}
 				cliS.Close()
 				cliT.Close()
@@ -1362,4 +1800,5 @@ func TestVerifC02EarlyEnd(t *testing.T) {
 	}
 	run.Floor("all_cases_decided", 1)
 	run.Floor("closure_observed_by_peer", int64(run.Pick(1000, 10000)))
+	run.Floor("fin_with_data_fired", int64(run.Pick(200, 2000)))
 }
